@@ -644,14 +644,17 @@ def bounded_eq(reg, tier, seed):
                     trace.append(f"reannounce seed={'same' if new_seed == region.cap_urls.get('Seed') else 'new'}")
                     continue
                 if op == "inject":
-                    inj += 1
-                    ev = {"message": "InjectedThing", "body": {"inj": inj}}
-                    try:
-                        region.eq_manager.inject_event(ev)
-                    except Exception as e:  # noqa
-                        fail("eq/inject", f"inject_event raised {type(e).__name__}: {e}", {"trace": trace[-6:]})
-                    pending_injected.append(ev)
-                    trace.append("inject")
+                    # an addon may inject any number of events between two responses (the property puts no bound on it)
+                    burst = rng.choice([1, 1, 1, 2, 300, 1100]) if run % 4 == 1 else 1
+                    for _b in range(burst):
+                        inj += 1
+                        ev = {"message": "InjectedThing", "body": {"inj": inj}}
+                        try:
+                            region.eq_manager.inject_event(ev)
+                        except Exception as e:  # noqa
+                            fail("eq/inject", f"inject_event raised {type(e).__name__}: {e}", {"trace": trace[-6:]})
+                        pending_injected.append(ev)
+                    trace.append("inject" if burst == 1 else f"inject x{burst}")
                     continue
                 if op == "repoll" and last_resp is not None:
                     # the viewer lost the previous response and repeats the poll with the same ack
